@@ -2,14 +2,17 @@ package main
 
 import (
 	"log/slog"
+	"os"
 
 	"gitlab.com/gomidi/midi/v2"
 	_ "gitlab.com/gomidi/midi/v2/drivers/testdrv" // autoregisters driver
 )
 
 func main() {
-	defer midi.CloseDriver()
-	if err := rootCmd.Execute(); err != nil {
+	err := rootCmd.Execute()
+	midi.CloseDriver()
+	if err != nil {
 		slog.Error("Err", slog.Any("err", err))
+		os.Exit(1)
 	}
 }
